@@ -82,6 +82,7 @@ func (p *Program) verifyFunc(fc *FuncContract) (u *Unit) {
 	}()
 	x.top = fn
 	x.fc = fc
+	p.unitExtern = fc.AllowExtern
 	x.nopanic = fc.NoPanic
 	x.exact = fc.ExactConv
 	// entry state
